@@ -189,7 +189,7 @@ func docMin(file, name string, re *regexp.Regexp, vars map[string]int) (int, boo
 var (
 	reGelsLwork     = regexp.MustCompile(`lwork >= (.+?), and this function will panic otherwise`)
 	reBdsqrWork     = regexp.MustCompile(`work contains temporary storage and must have length at least ([^.]+)\. `)
-	reBdsqrWork2    = regexp.MustCompile(`must have length at least (\S+) if ncvt == nru == ncc == 0,? and at least (\S+) otherwise`)
+	reBdsqrWork2    = regexp.MustCompile(`must have length at least (\S+) if ncvt == nru == ncc == 0( and n > 1)?,? and at least (\S+) otherwise`)
 	reGgsvd3Lwork2  = regexp.MustCompile(`lwork must be -1 or at least ([^ ]+), otherwise`)
 	reGgsvd3Lwork   = regexp.MustCompile(`lwork must be -1 or greater than ([^,]+), otherwise`)
 	docUnrecognised sync.Map // "Routine.arg" -> true
